@@ -11,6 +11,32 @@ import struct
 
 EPS = 100 * 2.0 ** -52          # Constants<double>::eps
 SQRT_EPS = math.sqrt(EPS)       # |theta| at which theta^2 crosses eps  (~1.49e-7)
+EPS_D, EPS_F = EPS, 100 * 2.0 ** -23
+F32 = False                     # True inside `with float32():` — strata follow Constants<float>
+
+
+def f32(x):
+    """round to the nearest float (what `(float)x` does in the harness and `Float.toFloat32` in the model)"""
+    try:
+        return struct.unpack("<f", struct.pack("<f", float(x)))[0]
+    except OverflowError:
+        return math.copysign(float("inf"), x)
+
+
+class float32:
+    """`with gen.float32():` — single-precision mode: thresholds are Constants<float>'s and every
+    number put on a request line is exactly representable in float."""
+
+    def __enter__(self):
+        global EPS, SQRT_EPS, F32
+        self.saved = (EPS, SQRT_EPS, F32)
+        EPS, SQRT_EPS, F32 = EPS_F, math.sqrt(EPS_F), True
+        return self
+
+    def __exit__(self, *a):
+        global EPS, SQRT_EPS, F32
+        EPS, SQRT_EPS, F32 = self.saved
+        return False
 
 # group descriptions: (rep layout, tangent layout); parts are (kind, size)
 GROUPS = {
@@ -214,5 +240,7 @@ def point(r, group):
 
 
 def req(dbg, storage, group, op, mask, floats=(), ints=()):
+    if F32:
+        floats = [f32(x) for x in floats]
     return " ".join([("1" if dbg else "0"), storage, group, op, str(mask)]
                     + [hex_of(x) for x in floats] + ["#%d" % i for i in ints])
